@@ -6,18 +6,29 @@
    that signature covers; kid-less ambiguity is reported, not guessed." *)
 From OIDC Require Export Lib C02_Jws C01_Verifier C02_Verifiers C02_Ground.
 
+(* one call in a sequence on a reused verifier *)
+Record vstep := mkVStep { vs_tok : token; vs_mid : middle; vs_now0 : Z; vs_now1 : Z }.
+
 Inductive input :=
 | IFind (kid use alg : string) (keys : list jwk)
     (* oidc.FindMatchingKey(kid, use, alg, keys...) *)
 | ICheckSig (allowed : list string) (ks : keyset) (t : token) (parsed : string)
     (* oidc.CheckSignature(token, parsed, claims, allowed, ks) on a library key set *)
-| IVerify (k : vkind) (v : verifier) (ks : keyset) (t : token) (m : middle) (now0 now1 : Z).
+| IVerify (k : vkind) (v : verifier) (ks : keyset) (t : token) (m : middle) (now0 now1 : Z)
     (* one of the five public verifiers; [now0,now1] brackets the call *)
+| IRemoteSeq (allowed : list string) (skip : bool) (steps : list rstep)
+    (* oidc.CheckSignature several times on ONE rp remote key set instance (cache
+       empty at first); before each call the endpoint may serve another list *)
+| IVerifySeq (k : vkind) (v : verifier) (ks : keyset) (steps : list vstep).
+    (* ONE verifier object (and its storage) reused for several tokens, of
+       different issuers / clients *)
 
 Inductive observed :=
 | OFind (r : find_result)
 | OSig (r : result string)      (* Ok alg: the algorithm set on the claims *)
 | OVerify (o : outcome)
+| ORemoteSeq (l : list (result string * bool))   (* per call: answer, "a download succeeded" *)
+| OVerifySeq (l : list outcome)
 | OPanic.
 
 Definition model (i : input) : observed :=
@@ -25,13 +36,17 @@ Definition model (i : input) : observed :=
   | IFind kid use alg keys => OFind (find_matching_key kid use alg keys)
   | ICheckSig allowed ks t parsed => OSig (check_signature sym_verify allowed ks t parsed)
   | IVerify k v ks t m now0 _ => OVerify (run_verifier sym_verify k v ks t m now0)
+  | IRemoteSeq allowed skip steps => ORemoteSeq (remote_run sym_verify allowed skip [] steps)
+  | IVerifySeq k v ks steps =>
+      (* a verifier keeps no state between calls *)
+      OVerifySeq (map (fun s => run_verifier sym_verify k v ks (vs_tok s) (vs_mid s) (vs_now0 s)) steps)
   end.
 
 (* alg reported with the claims: the header's for token claims, none for
    assertions and request objects (SetSignatureAlgorithm is a no-op there) *)
 Definition alg_reported (k : vkind) (t : token) (alg : string) : bool :=
   match k with
-  | VJWTAssertion | VRequestObject _ => alg =s ""
+  | VJWTAssertion _ | VRequestObject _ => alg =s ""
   | _ => alg =s sig_alg t
   end.
 
@@ -47,16 +62,53 @@ Definition accept_ok (k : vkind) (v : verifier) (ks : keyset) (t : token) (m : m
   | _ => false
   end.
 
+(* answer o of verifier k to one token *)
+Definition verify_step_ok (k : vkind) (v : verifier) (ks : keyset) (t : token) (m : middle) (o : outcome) : bool :=
+  match o with
+  | Accept c' alg => accept_ok k v ks t m c' alg
+  | AcceptExpired c' alg _ =>
+      match k with VIDTokenHint => accept_ok k v ks t m c' alg | _ => false end
+  | Reject _ => true
+  end.
+
+(* Sequence on one remote key set.  [held] is ground truth: the list the
+   endpoint served at the last successful download (the harness served it and
+   counted the downloads).  A token is believed only under a key of the set as
+   currently held - a key the provider has withdrawn and the key set has
+   replaced by a newer download is no longer a key of the configured key set. *)
+Fixpoint remote_seq_spec (allowed : list string) (skip : bool) (held : list jwk)
+         (steps : list rstep) (obs : list (result string * bool)) : bool :=
+  match steps, obs with
+  | [], [] => true
+  | s :: r, (res, f) :: ro =>
+      let held' := if f then match rs_served s with Some l => l | None => held end else held in
+      (negb f || match rs_served s with Some _ => true | None => false end)
+      && match res with
+         | Ok alg =>
+             sig_genuine allowed (KSOpenID (Some held')) (rs_tok s) (rs_parsed s)
+             && (alg =s sig_alg (rs_tok s))
+         | Err _ => negb (sig_complete allowed (KSRemote held (rs_served s) skip) (rs_tok s) (rs_parsed s))
+         end
+      && remote_seq_spec allowed skip held' r ro
+  | _, _ => false
+  end.
+
+Fixpoint verify_seq_spec (k : vkind) (v : verifier) (ks : keyset) (steps : list vstep) (obs : list outcome) : bool :=
+  match steps, obs with
+  | [], [] => true
+  | s :: r, o :: ro => verify_step_ok k v ks (vs_tok s) (vs_mid s) o && verify_seq_spec k v ks r ro
+  | _, _ => false
+  end.
+
 Definition spec (i : input) (o : observed) : bool :=
   match i, o with
   | IFind kid use alg keys, OFind r => find_spec kid use alg keys r
   | ICheckSig allowed ks t parsed, OSig (Ok alg) =>
       sig_genuine allowed ks t parsed && (alg =s sig_alg t)
   | ICheckSig allowed ks t parsed, OSig (Err _) => negb (sig_complete allowed ks t parsed)
-  | IVerify k v ks t m _ _, OVerify (Accept c' alg) => accept_ok k v ks t m c' alg
-  | IVerify k v ks t m _ _, OVerify (AcceptExpired c' alg _) =>
-      match k with VIDTokenHint => accept_ok k v ks t m c' alg | _ => false end
-  | IVerify _ _ _ _ _ _ _, OVerify (Reject _) => true
+  | IVerify k v ks t m _ _, OVerify o => verify_step_ok k v ks t m o
+  | IRemoteSeq allowed skip steps, ORemoteSeq l => remote_seq_spec allowed skip [] steps l
+  | IVerifySeq k v ks steps, OVerifySeq l => verify_seq_spec k v ks steps l
   | _, _ => false
   end.
 
@@ -66,6 +118,13 @@ Definition obs_eqb (a b : observed) : bool :=
   | OSig (Ok x), OSig (Ok y) => x =s y
   | OSig (Err x), OSig (Err y) => err_eqb x y
   | OVerify x, OVerify y => outcome_eqb x y
+  | ORemoteSeq x, ORemoteSeq y =>
+      list_eqb (fun a b => match fst a, fst b with
+                           | Ok u, Ok w => u =s w
+                           | Err u, Err w => err_eqb u w
+                           | _, _ => false
+                           end && Bool.eqb (snd a) (snd b)) x y
+  | OVerifySeq x, OVerifySeq y => list_eqb outcome_eqb x y
   | OPanic, OPanic => true
   | _, _ => false
   end.
@@ -73,7 +132,7 @@ Definition obs_eqb (a b : observed) : bool :=
 Definition kind_base (k : vkind) : nat :=
   match k with
   | VRpIDToken => 100 | VAccessToken => 200 | VIDTokenHint => 300
-  | VJWTAssertion => 400 | VRequestObject _ => 500
+  | VJWTAssertion _ => 400 | VRequestObject _ => 500
   end.
 
 Definition path (i : input) (o : observed) : nat :=
@@ -86,6 +145,12 @@ Definition path (i : input) (o : observed) : nat :=
   | ICheckSig _ _ _ _, OSig (Err e) => 51 + err_code e
   | IVerify k _ _ _ _ _ _, OVerify (Reject EParse) => 0
   | IVerify k _ _ _ _ _ _, OVerify o => kind_base k + outcome_code o
+  | IRemoteSeq _ _ _, ORemoteSeq l =>   (* accepted / downloads, capped *)
+      600 + 10 * Nat.min 9 (List.length (filter (fun x => match fst x with Ok _ => true | _ => false end) l))
+      + Nat.min 9 (List.length (filter (fun x => snd x) l))
+  | IVerifySeq k _ _ _, OVerifySeq l =>
+      700 + kind_base k / 10
+      + Nat.min 9 (List.length (filter (fun o => match o with Reject _ => false | _ => true end) l))
   | _, _ => 0
   end.
 
